@@ -22,11 +22,12 @@ Local Notation s_call := (@s_call V B It Ev tyerr undef bstep istep has_meth).
       after completion, return/throw before the first next — and every amount of fuel, goja's generatorObject
       (states SuspendedStart/Executing/SuspendedYield/SuspendedYieldRes/Completed + `delegated`) produces exactly the
       side effects, {value, done} answers and thrown values of ECMA-262 27.5.3 + 14.4.14.
-      Hypotheses: (H1) the compiler marks a yield as "value unused" only where the body ignores the value;
-      (H2) the body does not call its own generator while handling a GetIterator failure of a yield* operand —
-      the window recorded as finding C09-N2, see genobj_window_refuted. *)
+      Hypothesis (H1): the compiler marks a yield as "value unused" only where the body ignores the value.
+      (The second hypothesis of the previous round — no re-entrant call while a GetIterator failure is handled — is gone:
+      findings C09-N1/N2 were repaired by d6dd1c9, the model follows the repaired code, and the theorem is unconditional
+      in that respect.) *)
 Theorem genobj_refines_spec :
-  unused_is_ignored bstep -> no_reentry_after_iterfail bstep ->
+  unused_is_ignored bstep ->
   forall n b hist,
     outs (run (g_call n) (@ginit B It b) hist) = outs (run (s_call n) (@sinit B It b) hist).
 Proof. exact (ProofsGen.genobj_refines_spec tyerr undef bstep istep has_meth). Qed.
@@ -61,14 +62,6 @@ Theorem start_abrupt_skips_body : forall n (g : gobj B It),
   (forall e, g_call n g (RThrow e) = ([], g_set_state g GCompleted, OThrow e)).
 Proof. exact (ProofsGen.g_start_abrupt tyerr undef bstep istep has_meth). Qed.
 End C09_GeneratorObject.
-
-(* 5. The window carved out by H2 is a genuine difference (finding C09-N2): goja sets state = completed before it
-      throws a GetIterator failure into the body, so a re-entrant next() is answered {undefined, true} instead of a
-      TypeError. *)
-Theorem genobj_window_refuted :
-  outs (run (g_call 999 0 wit_bstep wit_istep wit_has 5) (ginit 0) [RNext 0])
-  <> outs (run (s_call 999 0 wit_bstep wit_istep wit_has 5) (sinit 0) [RNext 0]).
-Proof. exact ProofsGen.genobj_window_refuted. Qed.
 
 Section C09_Segments.
 Context {Val IterItem RefItem Payload : Type}.
@@ -113,6 +106,5 @@ Print Assumptions completed_forever.
 Print Assumptions executing_rejects_reentry.
 Print Assumptions executing_rejects_reentry_spec.
 Print Assumptions start_abrupt_skips_body.
-Print Assumptions genobj_window_refuted.
 Print Assumptions suspend_resume_roundtrip.
 Print Assumptions resume_suspend_is_identity.
